@@ -15,11 +15,31 @@ def _py_kind(value: Any) -> Optional[str]:
     return type(value).__name__
 
 
+_KEY_DEPTH = [0]
+
+
+def _guard(fn: Any) -> Any:
+    def wrapped(self: Any) -> str:
+        if _KEY_DEPTH[0] > 40:
+            return "<deep>"
+        _KEY_DEPTH[0] += 1
+        try:
+            return fn(self)
+        finally:
+            _KEY_DEPTH[0] -= 1
+    return wrapped
+
+
 class V:
     kind: Optional[str] = None
 
     def key(self) -> str:
         raise NotImplementedError
+
+    def __init_subclass__(cls, **kw: Any) -> None:
+        super().__init_subclass__(**kw)
+        if "key" in cls.__dict__:
+            cls.key = _guard(cls.__dict__["key"])  # type: ignore
 
     def __repr__(self) -> str:
         return self.key()
